@@ -29,3 +29,9 @@ META = dict(
     explanation='the set comprehension of the real source is evaluated on 52 symbolic membership bits; result compared bit by bit with the follow-suit rule',
     required_outcomes=['led', 'leading', 'example player chose', 'full hand, 2 on table', 'own hand, 1 on table', 'dummy hand, 3 on table'],
 )
+
+
+def validate(tier):
+    """translator validation: the interpreter in concrete mode against CPython on the functions this check encodes"""
+    from engine import validate as v
+    return v.run(['plays'], tier)
